@@ -87,6 +87,15 @@ Proof.
 Qed.
 
 (* ---- slash window ---- *)
+Lemma window_closing_u_spec h p w : 0 <= h -> 0 <= p < two63 ->
+  window_closing_u h p w = window_closing h p w.
+Proof.
+  intros Hh Hp. unfold window_closing_u, window_closing.
+  rewrite wrap64_small by (unfold two64, two63 in *; lia).
+  destruct (w =? 0); simpl; [reflexivity|].
+  destruct (h <? 0) eqn:E; [lia|]. replace (p * 2) with (2 * p) by lia. reflexivity.
+Qed.
+
 
 Lemma window_closing_iff h p w : 1 <= p -> 1 <= w -> 0 <= h ->
   window_closing h p w = true <-> exists k, 1 <= k /\ h - 2 * p < k * w <= h.
